@@ -76,7 +76,7 @@ pub fn compress_args(c: &CompressCase) -> Vec<String> {
     a.push("--hash-length".into()); a.push(format!("{}", c.hashlen));
     match c.comp {
         None => { a.push("--compression".into()); a.push("none".into()); }
-        Some(l) => { a.push("--compression".into()); a.push("brotli".into()); a.push("--compression-level".into()); a.push(format!("{}", l)); }
+        Some((t, l)) => { a.push("--compression".into()); a.push(match t { 1 => "lzma", 2 => "zstd", _ => "brotli" }.into()); a.push("--compression-level".into()); a.push(format!("{}", l)); }
     }
     for (k, v) in &c.meta {
         a.push("--metadata-value".into()); a.push(k.clone()); a.push(String::from_utf8_lossy(v).to_string());
@@ -105,7 +105,7 @@ pub fn gen_cli_case(rng: &mut Rng, big: bool) -> CompressCase {
     for _ in 0..rng.below(3) {
         meta.insert(format!("key{}", rng.below(5)), format!("value-{}", rng.below(1000)).into_bytes());
     }
-    CompressCase { cfg, hashlen: rng.range(4, 64) as usize, comp: if rng.chance(1, 2) { None } else { Some(rng.range(1, 11) as u32) }, meta, src }
+    CompressCase { cfg, hashlen: rng.range(4, 64) as usize, comp: crate::archive::gen_comp(rng), meta, src }
 }
 
 fn par_for<F: Fn(usize, &mut Stats, &mut Vec<(String, String)>) + Sync>(n: usize, threads: usize, f: F, st: &mut Stats, out: &mut SuiteOut) {
@@ -152,7 +152,7 @@ pub fn suite_clirt(dir: &str, seed: u64, thorough: bool, st: &mut Stats) {
         let argv: Vec<&str> = args.iter().map(|x| x.as_str()).collect();
         let (code, log) = s.bita(&argv, None, &[]);
         st.evaluations += 1;
-        st.count(&format!("clirt/{}/{}", c.cfg.algo, if c.comp.is_some() { "brotli" } else { "none" }));
+        st.count(&format!("clirt/{}/{}", c.cfg.algo, match c.comp { None => "none", Some((1, _)) => "lzma", Some((2, _)) => "zstd", _ => "brotli" }));
         let desc = format!("clirt {} hl={} comp={:?} src={}", c.cfg.line(), c.hashlen, c.comp, hex(&c.src[..c.src.len().min(64)]));
         st.sample(format!("bita {}", args.join(" ")));
         let replay = format!("clirt {}", compress_line(&c, &[]).splitn(2, ' ').nth(1).unwrap_or(""));
